@@ -172,15 +172,14 @@ func (x *Exec) makeMap(fr *Frame, st *State, ins *ssa.MakeMap) error {
 				if rs {
 					hint = Ite(bvCmp("bvslt", hint, BVInt(0, 64)), BVInt(0, 64), hint)
 				}
-				env := x.newEnv(x.Top, nil, x.topContract, x.topArgs, st, st)
-				bound, err := env.intArg(x.allocBound.Expr, 128)
-				if err != nil {
-					return fmt.Errorf("opt alloc: %v", err)
-				}
 				sizes := types.SizesFor("gc", "amd64")
 				sz := sizes.Sizeof(mr.KT) + sizes.Sizeof(mr.VT) + 8
-				bytesT := bvBin("bvmul", ZeroExt(hint, 128), BVInt(sz, 128))
-				x.obligation(fr, ins, "allocbound", st.PC, bvCmp("bvule", bytesT, bound), fmt.Sprintf("bytes reserved by the map size hint (about %d per entry) exceed the declared bound %s", sz, x.allocBound.Text))
+				small := bvCmp("bvule", hint, BVUint(1<<40, 64))
+				prop, err := x.allocBoundProp(st, hint, sz)
+				if err != nil {
+					return err
+				}
+				x.obligation(fr, ins, "allocbound", st.PC, And(small, prop), fmt.Sprintf("bytes reserved by the map size hint (about %d per entry) exceed the declared bound %s", sz, x.allocBound.Text))
 			}
 		}
 	}
@@ -239,7 +238,7 @@ func (x *Exec) mapSet(st *State, mt types.Type, m Term, key Term, val Term) erro
 	l := x.heapGet(st, mr.L, mr.LS)
 	dm := Select(d, m)
 	was := Select(dm, k)
-	x.noteWrite(m)
+	x.noteWrite(m, mr.L, mr.D, mr.V)
 	x.heapSet(st, mr.L, Store(l, m, Ite(was, Select(l, m), bvBin("bvadd", Select(l, m), BVInt(1, 64)))))
 	x.heapSet(st, mr.D, Store(d, m, Store(dm, k, TTrue)))
 	x.heapSet(st, mr.V, Store(v, m, Store(Select(v, m), k, val)))
@@ -260,7 +259,7 @@ func (x *Exec) mapDelete(st *State, mt types.Type, m Term, key Term) error {
 	dm := Select(d, m)
 	was := And(Not(Eq(m, BVInt(0, 32))), Select(dm, k))
 	// delete on nil map is a no-op
-	x.noteWrite(m)
+	x.noteWrite(m, mr.L, mr.D)
 	x.heapSet(st, mr.L, Ite(was, Store(l, m, bvBin("bvsub", Select(l, m), BVInt(1, 64))), l))
 	x.heapSet(st, mr.D, Ite(was, Store(d, m, Store(dm, k, TFalse)), d))
 	return nil
